@@ -4,4 +4,5 @@ import RSVerif.Properties.C16
 #print axioms RS.observed_terminates
 #print axioms RS.observed_final_state
 #print axioms RS.source_global_state_is_the_tables
+#print axioms RS.source_starts_no_threads
 #print axioms RS.source_lazy_deps_are_observed
